@@ -5,3 +5,5 @@
 #![allow(unused_imports, dead_code)]
 #[cfg(kani)]
 mod kernels;
+#[cfg(kani)]
+mod views;
